@@ -23,8 +23,18 @@
     `SteppedDays z l z' k`  `z'` is `z` with its wall clock `l` moved by `k` whole days;
     `addMonths?` (C08) month stepping with clamped day; `dayNumOf` (C01) day number of a date.
   `Zoned` is `DateTime<FixedOffset>`; `DateTime<Utc>` is the case `off = 0`.
+
+  Added by the audit of 2026-09-30 (helper lemmas Proofs/ZonedFormatL.lean, ZonedRuleL.lean,
+  ZonedViewsL.lean; model Model/ZonedDerived.lean): `format_reads_wall_clock` (every text writer reads
+  `overflowing_naive_local`, text of `Debug` / `Display` also in the headroom day), the stepping failure set
+  against the rule "stepped instant in `MIN_UTC ..= MAX_UTC` and stepped wall clock in the nominal range"
+  with its exceptions (`day_stepping_vs_rule`, `month_stepping_vs_rule`, `…_exceptions`, `…_partial`),
+  `iso_week_reads_wall_clock`, `derived_accessors_read_wall_clock`, `zone_change_views`.
 -/
 import Chrono.Proofs.ZonedStepL
+import Chrono.Proofs.ZonedFormatL
+import Chrono.Proofs.ZonedRuleL
+import Chrono.Proofs.ZonedViewsL
 
 namespace Chrono.Props.C04
 open Chrono Chrono.M Chrono.Spec Chrono.Proofs Chrono.Proofs.ZN Chrono.Extracted
@@ -612,5 +622,466 @@ example : Zoned.with_ymd_and_hms 3600 1970 1 1 0 30 0 = .ok (some ⟨⟨dateOfYo
     Zoned.with_ymd_and_hms 1 MIN_YEAR 1 1 0 0 0 = .ok none ∧
     Zoned.with_ymd_and_hms (-1) MIN_YEAR 1 1 0 0 0 = .ok (some ⟨⟨Date.MIN, ⟨1, 0⟩⟩, -1⟩) ∧
     Zoned.with_ymd_and_hms 0 (MAX_YEAR + 1) 1 1 0 0 0 = .ok none := by decide +kernel
+
+/-! ### Formatting acts on the wall clock (also in the headroom day) -/
+
+/-- **format_reads_wall_clock.**  Let `l` be THE wall clock of a well-formed `z` (`headroom_sound` +
+`reading_unique`: the reading of `instant + offset` in the extended calendar — `naive_local` would panic
+on it in a headroom day).  Every text writer of the zone-aware value is the writer of the naive value
+applied to `l`, and none of them panics on account of the wall clock:
+
+* `to_rfc3339_opts` (every precision, with and without `Z`), `to_rfc3339` and `Serialize` return the text
+  `write_rfc3339` produces for `l` and the value's offset (it always produces one);
+* `to_rfc2822` is `write_rfc2822` of `l` under `expect` (it panics exactly when the wall-clock year is
+  outside 0–9999: C11 `writer_shape`, C15 `documented_panics`);
+* `Debug` / `Display` (any offset text: `+hh:mm[:ss]` for `FixedOffset`, `Z` / `UTC` for `Utc`) are the
+  specification text of the reading `l` — signed year, month and day of the wall-clock ordinal, clock
+  fields of the wall-clock second, shortest lossless fraction (`Spec.Text.naiveText`, C09) — followed by
+  the offset text, also when `l` lies in a headroom day;
+* `format` / `format_with_items` hand `l`'s date and time of day and the value's offset to the item
+  formatter of C12 (`Format.formatItemsR`). -/
+theorem format_reads_wall_clock (z : Zoned) (hz : ZInv z) :
+    ∃ l, Zoned.overflowing_naive_local z = .ok l ∧ ExtNDTInv l ∧ instSecs l = wallSecs z ∧
+      l.time.frac = z.utc.time.frac ∧
+      (∀ sf use_z, ∃ t, Format.write_rfc3339 l z.off sf use_z = .ok (some t) ∧
+        Rfc3339.to_rfc3339_opts z sf use_z = .ok t) ∧
+      (∃ t, Format.write_rfc3339 l z.off .autoSi false = .ok (some t) ∧ Rfc3339.to_rfc3339 z = .ok t) ∧
+      (∃ t, Format.write_rfc3339 l z.off .autoSi true = .ok (some t) ∧
+        Serde.DateTimeStr.serialize z = .ok (some t)) ∧
+      Rfc2822.to_rfc2822 z = Rfc3339.expectText (Format.write_rfc2822 l z.off) ∧
+      (∀ offText, TextForms.zoned_debug z offText = Format.wok (Text.naiveText 84 l ++ offText) ∧
+        TextForms.zoned_display z offText = Format.wok (Text.naiveText 32 l ++ 32 :: offText)) ∧
+      (∀ items, ParseFrom.formatItemsOf (.zoned z) items =
+        Format.formatItemsR (some l.date) (some l.time) (some (Format.fixedOffsetName z.off, z.off)) items) ∧
+      (∀ fmt, ParseFrom.format (.zoned z) fmt =
+        Format.formatItemsR (some l.date) (some l.time) (some (Format.fixedOffsetName z.off, z.off))
+          (Strftime.items fmt)) := by
+  obtain ⟨l, h1, h2, h3, h4, _, _⟩ := naive_local_spec z hz
+  obtain ⟨_, _, _, hho, _⟩ := wall_date_cases z hz l h1
+  obtain ⟨w1, w2, w3, w4, w5, w6, w7, w8⟩ := ZNF.writers_of_wall z l h1
+  obtain ⟨nd, ns⟩ := ZNF.naive_text_wall l hho h2.2
+  refine ⟨l, h1, h2, h3, h4, ?_, ?_, ?_, w3, ?_, w7, w8⟩
+  · intro sf use_z
+    obtain ⟨t, ht⟩ := C15Render.write_rfc3339_ok l h2 z.off hz.2 sf use_z
+    exact ⟨t, ht, by rw [w1, ht]; rfl⟩
+  · obtain ⟨t, ht⟩ := C15Render.write_rfc3339_ok l h2 z.off hz.2 .autoSi false
+    exact ⟨t, ht, by rw [w2, ht]; rfl⟩
+  · obtain ⟨t, ht⟩ := C15Render.write_rfc3339_ok l h2 z.off hz.2 .autoSi true
+    exact ⟨t, ht, by rw [w4, ht]; rfl⟩
+  · intro o
+    constructor
+    · rw [w5, nd]; rfl
+    · rw [w6, ns]
+      show Format.wok (Text.naiveText 32 l ++ ([32] ++ o)) = _
+      rfl
+
+/-- non-vacuity, and the inputs of the fixed findings F04 / F06 (`MAX_UTC` seen at +01:00, `MIN_UTC` at
+−01:00): `naive_local` panics, every writer shows the headroom reading; a leap second in the headroom
+day; `Utc` -/
+example :
+    ZInv ⟨NaiveDT.MAX, 3600⟩ ∧ Zoned.naive_local ⟨NaiveDT.MAX, 3600⟩ = .panic ∧
+    Rfc3339.to_rfc3339 ⟨NaiveDT.MAX, 3600⟩ = .ok (asciiBytes "+262143-01-01T00:59:59.999999999+01:00") ∧
+    Rfc3339.to_rfc3339_opts ⟨NaiveDT.MIN, -3600⟩ .secs true = .ok (asciiBytes "-262144-12-31T23:00:00-01:00") ∧
+    TextForms.fixed_debug ⟨NaiveDT.MAX, 3600⟩ = Format.wok (asciiBytes "+262143-01-01T00:59:59.999999999+01:00") ∧
+    TextForms.fixed_display ⟨NaiveDT.MIN, -3600⟩ = Format.wok (asciiBytes "-262144-12-31 23:00:00 -01:00") ∧
+    TextForms.fixed_display ⟨⟨Date.MAX, ⟨86399, 1500000000⟩⟩, 60⟩ =
+      Format.wok (asciiBytes "+262143-01-01 00:00:60.500 +00:01") ∧
+    Serde.DateTimeStr.serialize ⟨NaiveDT.MAX, 3600⟩ =
+      Format.wok (asciiBytes "+262143-01-01T00:59:59.999999999+01:00") ∧
+    Rfc2822.to_rfc2822 ⟨NaiveDT.MAX, 3600⟩ = .panic ∧
+    Rfc2822.to_rfc2822 ⟨⟨dateOfYo 1970 1, ⟨0, 0⟩⟩, 3600⟩ = .ok (asciiBytes "Thu, 1 Jan 1970 01:00:00 +0100") ∧
+    TextForms.utc_dt_debug ⟨dateOfYo 1970 1, ⟨1, 0⟩⟩ = Format.wok (asciiBytes "1970-01-01T00:00:01Z") := by
+  decide +kernel
+
+/-! ### The stepping failure set against an independent rule -/
+
+/-- **day_stepping_vs_rule.**  For every count `0 < n ≤ u64::MAX`: `checked_add_days` /
+`checked_sub_days` return a value exactly when BOTH the stepped instant (`instant ± n·86400 s`) lies in
+`MIN_UTC ..= MAX_UTC` AND the stepped wall clock (`wall clock ± n·86400 s`) is a reading of the nominal
+range — neither side mentions which one-sided filter the code applies.  (What a returned value is:
+`stepping_spec`, `SteppedDays`.)  So, measured against the pure instant rule "exists iff the stepped
+instant is in `MIN_UTC ..= MAX_UTC`", the exceptions are exactly the steps whose result would have its own
+wall clock in a headroom day: `day_stepping_exceptions`, `day_stepping_instant_rule_partial`. -/
+theorem day_stepping_vs_rule (z : Zoned) (hz : ZInv z) (n : Int) (hn1 : 0 < n)
+    (hn2 : n ≤ 18446744073709551615) :
+    (∃ r, Zoned.checked_add_days z n = .ok r ∧
+      (r = none ↔ ¬ (InUtcRange (instSecs z.utc + n * 86400) z.utc.time.frac ∧
+                     InRangeSecs (wallSecs z + n * 86400)))) ∧
+    (∃ r, Zoned.checked_sub_days z n = .ok r ∧
+      (r = none ↔ ¬ (InUtcRange (instSecs z.utc - n * 86400) z.utc.time.frac ∧
+                     InRangeSecs (wallSecs z - n * 86400)))) := by
+  obtain ⟨l, h1, _⟩ := naive_local_spec z hz
+  obtain ⟨r, a, b, _⟩ := zoned_add_days z hz l h1 n ⟨hn1, hn2⟩
+  obtain ⟨r', a', b', _⟩ := zoned_sub_days z hz l h1 n ⟨by omega, hn2⟩
+  exact ⟨⟨r, a, by rw [b, ZNR.add_days_rule z hz l h1 n hn1]⟩,
+         ⟨r', a', by rw [b', ZNR.sub_days_rule z hz l h1 n hn1]⟩⟩
+
+/-- `Days(0)` returns the value itself in both directions — also from a headroom wall clock, and also
+the one kind of well-formed value that compares greater than `MAX_UTC` (a leap-second representation in the
+last second of the range) -/
+theorem day_stepping_zero (z : Zoned) (hz : ZInv z) :
+    Zoned.checked_add_days z 0 = .ok (some z) ∧ Zoned.checked_sub_days z 0 = .ok (some z) := by
+  refine ⟨rfl, ?_⟩
+  obtain ⟨l, h1, _⟩ := naive_local_spec z hz
+  obtain ⟨_, _, _, _, _, _, hur⟩ := wall_date_cases z hz l h1
+  obtain ⟨r, a, b, c⟩ := zoned_sub_days z hz l h1 0 ⟨by omega, by omega⟩
+  rw [a]
+  cases r with
+  | none =>
+    exfalso
+    apply b.mp rfl
+    exact ⟨Or.inl rfl, by unfold GeMinUtc; unfold InRangeSecs at hur; omega⟩
+  | some z' =>
+    obtain ⟨s1, s2, s3, s4, _⟩ := c z' rfl
+    have ea : ExtNDTInv z'.utc := ⟨((dateInv_iff z'.utc.date).mp s2.1.1).1, s2.1.2⟩
+    have eb : ExtNDTInv z.utc := ⟨((dateInv_iff z.utc.date).mp hz.1.1).1, hz.1.2⟩
+    have hu : z'.utc = z.utc := ndt_unique _ _ ea eb (by rw [s3]; omega) s4
+    cases z'; cases z; simp_all
+
+/-- **the pure instant rule is false for day stepping** (real crate: same answers, see the harness counters
+`EXCEPTION …` and audit/C04.md): the stepped instant is inside `MIN_UTC ..= MAX_UTC`, the stepped value
+exists (it is `from_utc_datetime` of an in-range reading), yet the step is refused because the RESULT's
+wall clock would lie in a headroom day.  Forwards: `MAX−1d 23:30Z` at +01:00 plus one day; backwards:
+`MIN+2d 01:00Z` at −02:00 minus two days. -/
+theorem day_stepping_exceptions :
+    (ZInv ⟨⟨dateOfYo MAX_YEAR 364, ⟨84600, 0⟩⟩, 3600⟩ ∧
+      InUtcRange (instSecs (⟨dateOfYo MAX_YEAR 364, ⟨84600, 0⟩⟩ : NaiveDT) + 1 * 86400) 0 ∧
+      ZInv ⟨⟨dateOfYo MAX_YEAR 365, ⟨84600, 0⟩⟩, 3600⟩ ∧
+      Zoned.checked_add_days ⟨⟨dateOfYo MAX_YEAR 364, ⟨84600, 0⟩⟩, 3600⟩ 1 = .ok none) ∧
+    (ZInv ⟨⟨dateOfYo MIN_YEAR 3, ⟨3600, 0⟩⟩, -7200⟩ ∧
+      InUtcRange (instSecs (⟨dateOfYo MIN_YEAR 3, ⟨3600, 0⟩⟩ : NaiveDT) - 2 * 86400) 0 ∧
+      ZInv ⟨⟨dateOfYo MIN_YEAR 1, ⟨3600, 0⟩⟩, -7200⟩ ∧
+      Zoned.checked_sub_days ⟨⟨dateOfYo MIN_YEAR 3, ⟨3600, 0⟩⟩, -7200⟩ 2 = .ok none) := by
+  decide +kernel
+
+/-- **day_stepping_instant_rule_partial** — the pure instant rule with the excluded inputs as an explicit
+hypothesis (`hw`: the stepped wall clock is a reading of the nominal range; MISSING for the full rule: the
+steps whose result would read a headroom day, on which `day_stepping_headroom_refused` says what happens) -/
+theorem day_stepping_instant_rule_partial (z : Zoned) (hz : ZInv z) (n : Int) (hn1 : 0 < n)
+    (hn2 : n ≤ 18446744073709551615) :
+    (InRangeSecs (wallSecs z + n * 86400) →
+      ∃ r, Zoned.checked_add_days z n = .ok r ∧
+        (r = none ↔ ¬ InUtcRange (instSecs z.utc + n * 86400) z.utc.time.frac)) ∧
+    (InRangeSecs (wallSecs z - n * 86400) →
+      ∃ r, Zoned.checked_sub_days z n = .ok r ∧
+        (r = none ↔ ¬ InUtcRange (instSecs z.utc - n * 86400) z.utc.time.frac)) := by
+  obtain ⟨⟨r, a, b⟩, ⟨r', a', b'⟩⟩ := day_stepping_vs_rule z hz n hn1 hn2
+  refine ⟨fun hw => ⟨r, a, ?_⟩, fun hw => ⟨r', a', ?_⟩⟩
+  · rw [b]; constructor
+    · intro h hc; exact h ⟨hc, hw⟩
+    · intro h hc; exact h hc.1
+  · rw [b']; constructor
+    · intro h hc; exact h ⟨hc, hw⟩
+    · intro h hc; exact h hc.1
+
+/-- what happens on the excluded inputs, universally: a day step whose result would read a headroom day is
+refused (`None`, no panic), whatever its instant; and such a step with the instant inside
+`MIN_UTC ..= MAX_UTC` exists only within a day of a range end with the offset pointing outwards
+(forwards: offset > 0, stepped wall clock in the day after MAX; backwards: offset < 0, the day before MIN) -/
+theorem day_stepping_headroom_refused (z : Zoned) (hz : ZInv z) (n : Int) (hn1 : 0 < n)
+    (hn2 : n ≤ 18446744073709551615) :
+    (¬ InRangeSecs (wallSecs z + n * 86400) → Zoned.checked_add_days z n = .ok none ∧
+      (InUtcRange (instSecs z.utc + n * 86400) z.utc.time.frac →
+        0 < z.off ∧ SECS_MAX < wallSecs z + n * 86400 ∧ wallSecs z + n * 86400 ≤ SECS_MAX + 86399)) ∧
+    (¬ InRangeSecs (wallSecs z - n * 86400) → Zoned.checked_sub_days z n = .ok none ∧
+      (InUtcRange (instSecs z.utc - n * 86400) z.utc.time.frac →
+        z.off < 0 ∧ wallSecs z - n * 86400 < SECS_MIN ∧ SECS_MIN - 86399 ≤ wallSecs z - n * 86400)) := by
+  obtain ⟨⟨r, a, b⟩, ⟨r', a', b'⟩⟩ := day_stepping_vs_rule z hz n hn1 hn2
+  have hoff := hz.2
+  unfold OffValid at hoff
+  obtain ⟨l, h1, _⟩ := naive_local_spec z hz
+  obtain ⟨_, _, _, _, _, _, hur⟩ := wall_date_cases z hz l h1
+  refine ⟨fun hw => ⟨?_, fun hi => ?_⟩, fun hw => ⟨?_, fun hi => ?_⟩⟩
+  · rw [a, b.mpr (fun hc => hw hc.2)]
+  · have := ZNR.exception_shape (instSecs z.utc + n * 86400) z.off z.utc.time.frac hoff hi
+      (by unfold wallSecs at hw; rw [show instSecs z.utc + n * 86400 + z.off = instSecs z.utc + z.off + n * 86400 by omega]; exact hw)
+    unfold wallSecs InRangeSecs at *
+    have hi' := hi.1
+    omega
+  · rw [a', b'.mpr (fun hc => hw hc.2)]
+  · have := ZNR.exception_shape (instSecs z.utc - n * 86400) z.off z.utc.time.frac hoff hi
+      (by unfold wallSecs at hw; rw [show instSecs z.utc - n * 86400 + z.off = instSecs z.utc + z.off - n * 86400 by omega]; exact hw)
+    unfold wallSecs InRangeSecs at *
+    have hi' := hi.1
+    omega
+
+/-- **month_stepping_vs_rule.**  For every count `k > 0` (all of `u32` and beyond), with `l` the wall clock
+of `z` and `(Y, M, D)` its calendar date stepped by `±k` months with the day clamped (C08 `stepYear`,
+`stepMonth`, `stepDay`): there is a result exactly when the stepped wall-clock year `Y` is a year of the
+nominal range AND the stepped instant `(Y-M-D, time of l) − offset` is in `MIN_UTC ..= MAX_UTC` — or is the
+one reading just above it, a leap-second representation in the last second of the range (the month
+steppers apply no `≤ MAX_UTC` filter; `month_stepping_exceptions`). -/
+theorem month_stepping_vs_rule (z : Zoned) (hz : ZInv z) (k : Nat) (hk : 0 < k) :
+    ∃ l, Zoned.overflowing_naive_local z = .ok l ∧ ExtNDTInv l ∧ instSecs l = wallSecs z ∧
+      ∀ (add : Bool),
+        let n : Int := if add then (k : Int) else -(k : Int)
+        let y := l.date.year
+        let m := monthOfYo l.date.year l.date.ordinal.toNat
+        let d := dayOfYo l.date.year l.date.ordinal.toNat
+        ∃ r, (if add then Zoned.checked_add_months z k else Zoned.checked_sub_months z k) = .ok r ∧
+          (r = none ↔
+            ((stepYear y m n < MIN_YEAR ∨ stepYear y m n > MAX_YEAR) ∨
+             ∃ nd, addMonths? y m d n = some nd ∧
+               ¬ (InUtcRange (instSecs ⟨nd, l.time⟩ - z.off) l.time.frac ∨
+                  (instSecs ⟨nd, l.time⟩ - z.off = SECS_MAX ∧ l.time.frac ≥ 1000000000)))) := by
+  obtain ⟨l, h1, h2, h3, _⟩ := naive_local_spec z hz
+  refine ⟨l, h1, h2, h3, ?_⟩
+  obtain ⟨el, vl⟩ := ext_eq l.date h2.1
+  obtain ⟨_, _, m3, _⟩ := month_day_spec l.date.year l.date.ordinal.toNat vl.2.2.1 vl.2.2.2
+  have hd1 := ((valid_iff _ _ _).mp m3).2.2.1
+  obtain ⟨⟨ra, a1, _, a3⟩, ⟨rs, s1, _, s3⟩⟩ := zoned_months z hz l h1 k
+  intro add
+  cases add with
+  | true =>
+    dsimp only
+    refine ⟨ra, by simpa using a1, ?_⟩
+    have hrule := (a3 hk).2
+    rw [hrule, ← addMonths_none_iff _ _ _ _ hd1]
+    simp only [if_true]
+    constructor
+    · rintro (h | ⟨nl, h, hn⟩)
+      · left; simpa using h
+      · right
+        cases hq : addMonths? l.date.year (monthOfYo l.date.year l.date.ordinal.toNat)
+            (dayOfYo l.date.year l.date.ordinal.toNat) (k : Int) with
+        | none => rw [hq] at h; cases h
+        | some nd =>
+          rw [hq] at h
+          have : nl = ⟨nd, l.time⟩ := by simpa using h.symm
+          subst this
+          exact ⟨nd, rfl, by rw [← ZNR.inrange_vs_utc]; exact hn⟩
+    · rintro (h | ⟨nd, h, hn⟩)
+      · left; simpa using h
+      · right
+        refine ⟨⟨nd, l.time⟩, by rw [h]; rfl, ?_⟩
+        rw [ZNR.inrange_vs_utc _ l.time.frac]; exact hn
+  | false =>
+    dsimp only
+    refine ⟨rs, by simpa using s1, ?_⟩
+    have hrule := (s3 hk).2
+    rw [hrule, ← addMonths_none_iff _ _ _ _ hd1]
+    simp only [Bool.false_eq_true, if_false]
+    constructor
+    · rintro (h | ⟨nl, h, hn⟩)
+      · left; simpa using h
+      · right
+        cases hq : addMonths? l.date.year (monthOfYo l.date.year l.date.ordinal.toNat)
+            (dayOfYo l.date.year l.date.ordinal.toNat) (-(k : Int)) with
+        | none => rw [hq] at h; cases h
+        | some nd =>
+          rw [hq] at h
+          have : nl = ⟨nd, l.time⟩ := by simpa using h.symm
+          subst this
+          exact ⟨nd, rfl, by rw [← ZNR.inrange_vs_utc]; exact hn⟩
+    · rintro (h | ⟨nd, h, hn⟩)
+      · left; simpa using h
+      · right
+        refine ⟨⟨nd, l.time⟩, by rw [h]; rfl, ?_⟩
+        rw [ZNR.inrange_vs_utc _ l.time.frac]; exact hn
+
+/-- **the exceptions of month stepping against the pure instant rule** (real crate: same answers):
+(a) a result ABOVE `MAX_UTC` is returned — `MAX_YEAR-10-31T23:59:60.5Z` plus two months is
+`MAX_YEAR-12-31T23:59:60.5Z`, which compares greater than `MAX_UTC` (`checked_add_days` filters exactly this
+value: second line); (b) a step whose result would read a headroom day is refused although its instant is
+in range — `MIN_YEAR-02-01T01:00Z` at −02:00 (wall clock Jan 31 23:00) minus one month, and
+`MAX_YEAR-11-30T23:30Z` at +01:00 (wall clock Dec 1 00:30) plus one month. -/
+theorem month_stepping_exceptions :
+    (Zoned.checked_add_months ⟨⟨dateOfYo MAX_YEAR 304, ⟨86399, 1500000000⟩⟩, 0⟩ 2 =
+        .ok (some ⟨⟨Date.MAX, ⟨86399, 1500000000⟩⟩, 0⟩) ∧
+      ¬ InUtcRange (instSecs (⟨Date.MAX, ⟨86399, 1500000000⟩⟩ : NaiveDT)) 1500000000 ∧
+      Zoned.checked_add_days ⟨⟨dateOfYo MAX_YEAR 364, ⟨86399, 1500000000⟩⟩, 0⟩ 1 = .ok none) ∧
+    (Zoned.checked_sub_months ⟨⟨dateOfYo MIN_YEAR 32, ⟨3600, 0⟩⟩, -7200⟩ 1 = .ok none ∧
+      InUtcRange (instSecs (⟨dateOfYo MIN_YEAR 1, ⟨3600, 0⟩⟩ : NaiveDT)) 0 ∧
+      Zoned.overflowing_naive_local ⟨⟨dateOfYo MIN_YEAR 1, ⟨3600, 0⟩⟩, -7200⟩ = .ok ⟨Date.BEFORE_MIN, ⟨82800, 0⟩⟩) ∧
+    (Zoned.checked_add_months ⟨⟨dateOfYo MAX_YEAR 334, ⟨84600, 0⟩⟩, 3600⟩ 1 = .ok none ∧
+      InUtcRange (instSecs (⟨dateOfYo MAX_YEAR 365, ⟨84600, 0⟩⟩ : NaiveDT)) 0 ∧
+      Zoned.overflowing_naive_local ⟨⟨dateOfYo MAX_YEAR 365, ⟨84600, 0⟩⟩, 3600⟩ = .ok ⟨Date.AFTER_MAX, ⟨1800, 0⟩⟩) := by
+  decide +kernel
+
+/-- **month_stepping_instant_rule_partial** — the pure instant rule for month steps on the inputs that
+are not excluded (`hy`: the stepped wall-clock year is a year of the nominal range; `hleap`: the value is
+not a leap-second representation — MISSING: those two classes, see `month_stepping_exceptions`) -/
+theorem month_stepping_instant_rule_partial (z : Zoned) (hz : ZInv z) (k : Nat) (hk : 0 < k)
+    (hleap : z.utc.time.frac < 1000000000) :
+    ∃ l, Zoned.overflowing_naive_local z = .ok l ∧
+      ∀ (add : Bool),
+        let n : Int := if add then (k : Int) else -(k : Int)
+        let y := l.date.year
+        let m := monthOfYo l.date.year l.date.ordinal.toNat
+        let d := dayOfYo l.date.year l.date.ordinal.toNat
+        (MIN_YEAR ≤ stepYear y m n ∧ stepYear y m n ≤ MAX_YEAR) →
+        ∃ r nd, (if add then Zoned.checked_add_months z k else Zoned.checked_sub_months z k) = .ok r ∧
+          addMonths? y m d n = some nd ∧
+          (r = none ↔ ¬ InUtcRange (instSecs ⟨nd, l.time⟩ - z.off) l.time.frac) := by
+  obtain ⟨l, h1, h2, h3, hrule⟩ := month_stepping_vs_rule z hz k hk
+  have hfr' : l.time.frac = z.utc.time.frac := by
+    obtain ⟨l', a, _, _, d, _⟩ := naive_local_spec z hz
+    rw [h1] at a; injection a with a; subst a; exact d
+  refine ⟨l, h1, ?_⟩
+  intro add
+  obtain ⟨r, hr, hiff⟩ := hrule add
+  dsimp only at hr hiff ⊢
+  intro hy
+  obtain ⟨el, vl⟩ := ext_eq l.date h2.1
+  obtain ⟨_, _, m3, _⟩ := month_day_spec l.date.year l.date.ordinal.toNat vl.2.2.1 vl.2.2.2
+  have hd1 := ((valid_iff _ _ _).mp m3).2.2.1
+  cases hq : addMonths? l.date.year (monthOfYo l.date.year l.date.ordinal.toNat)
+      (dayOfYo l.date.year l.date.ordinal.toNat) (if add = true then (k : Int) else -(k : Int)) with
+  | none =>
+    exfalso
+    have := (addMonths_none_iff _ _ _ _ hd1).mp hq
+    omega
+  | some nd =>
+    refine ⟨r, nd, hr, rfl, ?_⟩
+    rw [hiff]
+    constructor
+    · rintro (h | ⟨nd', h, hn⟩)
+      · omega
+      · rw [hq] at h; injection h with h; subst h
+        intro hc; exact hn (Or.inl hc)
+    · intro h
+      right
+      refine ⟨nd, hq, ?_⟩
+      rintro (hc | hc)
+      · exact h hc
+      · omega
+
+/-! ### ISO week and the derived accessors -/
+
+/-- **iso_week_reads_wall_clock.**  `iso_week()` of a zone-aware value never panics and is the ISO 8601
+week of the wall-clock day `n = EPOCH_DAY + ⌊(instant + offset)/86400⌋`, also in a headroom day: the
+Thursday `isoThursday n` of `n`'s Monday-based week is the `ot`-th day of calendar year `Y` (that pair is
+unique: C01 `yo_form_unique`); the ISO year is `Y`, the week number `(ot − 1)/7 + 1`, the 0-based week
+`(ot − 1)/7`, and the low four bits are the flags of `Y`.  (`Y` can be `MAX_YEAR + 1`: the day after MAX
+is a Tuesday in week 1 of the following year; the day before MIN is a Wednesday in week 1 of `MIN_YEAR`.) -/
+theorem iso_week_reads_wall_clock (z : Zoned) (hz : ZInv z) :
+    ∃ (ywf Y : Int) (ot : Nat), Zoned.iso_week z = .ok ywf ∧ 1 ≤ ot ∧ ot ≤ yearLen Y ∧
+      dayNumYo Y ot = isoThursday (EPOCH_DAY + wallSecs z / 86400) ∧
+      IsoWeek.year ywf = Y ∧ IsoWeek.week ywf = ((ot - 1) / 7 + 1 : Nat) ∧
+      IsoWeek.week0 ywf = ((ot - 1) / 7 : Nat) ∧ ywf % 16 = flagsOf Y := by
+  obtain ⟨l, h1, h2, h3, _⟩ := naive_local_spec z hz
+  obtain ⟨_, _, _, hho, _⟩ := wall_date_cases z hz l h1
+  obtain ⟨Y, ot, i1, i2, i3, i4⟩ := ZNV.iso_week_wall l.date hho
+  have ht := h2.2
+  unfold TValid at ht
+  have hday : dayNumOf l.date = EPOCH_DAY + wallSecs z / 86400 := by
+    have hdef : instSecs l = (dayNumOf l.date - EPOCH_DAY) * 86400 + l.time.secs := rfl
+    rw [← h3, hdef]; omega
+  have hl := yearLen_ge Y
+  have hf := (flagsOf_facts Y).1
+  obtain ⟨f1, f2⟩ := ywf_fields Y ((ot - 1) / 7 + 1) (flagsOf Y) (by omega) hf
+  refine ⟨_, Y, ot, ?_, i1, i2, by rw [← hday]; exact i3, f1, f2, ?_, by omega⟩
+  · unfold Zoned.iso_week; rw [h1]; exact i4
+  · unfold IsoWeek.week0; unfold IsoWeek.week at f2; rw [f2]; push_cast; omega
+
+/-- non-vacuity: the two headroom days and a year-end inside the range (2014-12-29 is in 2015-W01) -/
+example :
+    Zoned.iso_week ⟨NaiveDT.MIN, -3600⟩ = .ok (MIN_YEAR * 1024 + 1 * 16 + flagsOf MIN_YEAR) ∧
+    Zoned.iso_week ⟨NaiveDT.MAX, 1⟩ = .ok ((MAX_YEAR + 1) * 1024 + 1 * 16 + flagsOf (MAX_YEAR + 1)) ∧
+    Zoned.iso_week ⟨⟨dateOfYo 2014 362, ⟨82800, 0⟩⟩, 3600⟩ = .ok (2015 * 1024 + 1 * 16 + flagsOf 2015) ∧
+    Zoned.iso_week ⟨⟨dateOfYo 2014 362, ⟨82800, 0⟩⟩, 0⟩ = .ok (2014 * 1024 + 52 * 16 + flagsOf 2014) := by
+  decide +kernel
+
+/-- **derived_accessors_read_wall_clock.**  The remaining `Datelike` / `Timelike` views of a zone-aware
+value are those of the wall clock too, also in a headroom day and without `u32` / `i32` overflow: with
+`(y, o)` the year and ordinal of `accessors_read_wall_clock` and `s` the wall-clock second of day,
+`month0 / day0 / ordinal0` are the 1-based fields minus one, `quarter` is `(month − 1)/3 + 1`, `year_ce`
+is `(false, 1 − y)` before year 1 and `(true, y)` from year 1, `hour12` is `(hour ≥ 12, 12-hour clock)`,
+and the `Timelike` default `num_seconds_from_midnight` (hour·3600 + minute·60 + second) is `s`. -/
+theorem derived_accessors_read_wall_clock (z : Zoned) (hz : ZInv z) :
+    ∃ (y : Int) (o : Nat), MIN_YEAR - 1 ≤ y ∧ y ≤ MAX_YEAR + 1 ∧ 1 ≤ o ∧ o ≤ yearLen y ∧
+      dayNumYo y o = EPOCH_DAY + wallSecs z / 86400 ∧
+      Zoned.month0 z = .ok ((monthOfYo y o : Int) - 1) ∧ Zoned.day0 z = .ok ((dayOfYo y o : Int) - 1) ∧
+      Zoned.ordinal0 z = .ok ((o : Int) - 1) ∧
+      Zoned.quarter z = .ok (((monthOfYo y o : Int) - 1) / 3 + 1) ∧
+      Zoned.year_ce z = .ok (if y < 1 then (false, 1 - y) else (true, y)) ∧
+      Zoned.hour12 z = .ok (decide (wallSecs z % 86400 / 3600 ≥ 12),
+        if wallSecs z % 86400 / 3600 % 12 = 0 then 12 else wallSecs z % 86400 / 3600 % 12) ∧
+      Zoned.num_seconds_from_midnight z = .ok (wallSecs z % 86400) := by
+  obtain ⟨l, h1, h2, h3, _⟩ := naive_local_spec z hz
+  obtain ⟨e, v1, v2, v3, v4⟩ := ext_eq l.date h2.1
+  have hyl := yearLen_ge l.date.year
+  have hsecs := instSecs_ext l h2.1
+  rw [h3] at hsecs
+  have ht := h2.2
+  unfold TValid at ht
+  have hday : dayNumYo l.date.year l.date.ordinal.toNat = EPOCH_DAY + wallSecs z / 86400 := by omega
+  have hsod : l.time.secs = wallSecs z % 86400 := by omega
+  obtain ⟨m1, m2, m3, _⟩ := month_day_spec l.date.year l.date.ordinal.toNat v3 v4
+  rw [← e] at m1 m2
+  obtain ⟨b1, b2, b3, b4⟩ := (valid_iff _ _ _).mp m3
+  have hml : monthLen l.date.year (monthOfYo l.date.year l.date.ordinal.toNat) ≤ 31 := by
+    unfold monthLen; split <;> (try split) <;> omega
+  obtain ⟨a1, a2, a3, _, c1, c2, c3, c4, c5, c6, c7, _⟩ := accessors' l.time h2.2
+  have hMIN : MIN_YEAR = -262143 := rfl
+  have hMAX : MAX_YEAR = 262142 := rfl
+  have hord : l.date.ordinal = (l.date.ordinal.toNat : Int) := by
+    rw [Int.toNat_of_nonneg (by have := h2.1.2.2.1; omega)]
+  obtain ⟨d1, d2, d3, d4, d5, d6, d7⟩ := ZNV.derived_views z l h1 l.date.year _ _ l.date.ordinal
+    (hourOf l.time) (minuteOf l.time) (secondOf l.time) rfl m1 m2 rfl a1 a2 a3
+    (by omega) ⟨b1, b2⟩ ⟨b3, by omega⟩ (by rw [hord]; omega) ⟨c1, c2⟩ ⟨c3, c4⟩ ⟨c5, c6⟩
+  have hh : hourOf l.time = wallSecs z % 86400 / 3600 := by unfold hourOf; rw [hsod]
+  refine ⟨l.date.year, l.date.ordinal.toNat, v1, v2, v3, v4, hday, d1, d2, ?_, d4, d5, ?_, ?_⟩
+  · rw [d3, hord]; simp
+  · rw [d6, hh]
+  · rw [d7, c7, hsod]
+
+/-- non-vacuity on the headroom readings: Dec 31 of year −262144 (year_ce: 262145 BCE), 23:00 -/
+example :
+    Zoned.month0 ⟨NaiveDT.MIN, -3600⟩ = .ok 11 ∧ Zoned.day0 ⟨NaiveDT.MIN, -3600⟩ = .ok 30 ∧
+    Zoned.ordinal0 ⟨NaiveDT.MIN, -3600⟩ = .ok 365 ∧ Zoned.quarter ⟨NaiveDT.MIN, -3600⟩ = .ok 4 ∧
+    Zoned.year_ce ⟨NaiveDT.MIN, -3600⟩ = .ok (false, 262145) ∧
+    Zoned.year_ce ⟨NaiveDT.MAX, 3600⟩ = .ok (true, 262143) ∧
+    Zoned.hour12 ⟨NaiveDT.MIN, -3600⟩ = .ok (true, 11) ∧ Zoned.hour12 ⟨NaiveDT.MAX, 3600⟩ = .ok (false, 12) ∧
+    Zoned.num_seconds_from_midnight ⟨NaiveDT.MIN, -3600⟩ = .ok 82800 := by decide +kernel
+
+/-! ### Changing the zone: the views of the result -/
+
+/-- **zone_change_views** — what `with_timezone_keeps_instant` leaves definitional, given content.  For a
+well-formed `z` and any offset `o'` a `FixedOffset` can hold: `with_timezone z o'` (=
+`from_naive_utc_and_offset` / `from_utc_datetime` of the stored UTC reading) is well formed and its wall
+clock is THE reading of `instant + o'` — the old wall clock moved by `o' − offset` seconds — in the
+extended calendar; chains collapse (`with_timezone` twice = once, so a round trip through any zone gives
+the value back); `to_utc` is the view whose wall clock is the UTC reading itself (`naive_local` returns
+it, never panics) and `fixed_offset` is the identity; whenever the new wall clock is in range, building
+from it at `o'` returns the converted value. -/
+theorem zone_change_views (z : Zoned) (hz : ZInv z) (o' : Int) (ho : OffValid o') :
+    ZInv (Zoned.with_timezone z o') ∧
+    Zoned.with_timezone z o' = Zoned.from_naive_utc_and_offset z.naive_utc o' ∧
+    Zoned.with_timezone z o' = Zoned.from_utc_datetime o' z.naive_utc ∧
+    (∃ l', Zoned.overflowing_naive_local (Zoned.with_timezone z o') = .ok l' ∧ ExtNDTInv l' ∧
+      instSecs l' = wallSecs z + (o' - z.off) ∧ l'.time.frac = z.utc.time.frac ∧
+      (∀ l, Zoned.naive_local (Zoned.with_timezone z o') = .ok l →
+        Zoned.from_local_datetime o' l = .ok (some (Zoned.with_timezone z o')))) ∧
+    (∀ o'', Zoned.with_timezone (Zoned.with_timezone z o') o'' = Zoned.with_timezone z o'') ∧
+    Zoned.with_timezone (Zoned.with_timezone z o') z.off = z ∧
+    Zoned.to_utc z = Zoned.with_timezone z 0 ∧ ZInv (Zoned.to_utc z) ∧
+    Zoned.naive_local (Zoned.to_utc z) = .ok z.utc ∧
+    Zoned.overflowing_naive_local (Zoned.to_utc z) = .ok z.utc ∧
+    Zoned.fixed_offset z = z ∧ Zoned.eq (Zoned.to_utc z) z = true := by
+  have hzi : ZInv (Zoned.with_timezone z o') := ⟨hz.1, ho⟩
+  have h0 : OffValid 0 := by unfold OffValid; omega
+  have hzu : ZInv (Zoned.to_utc z) := ⟨hz.1, h0⟩
+  have hext : ExtNDTInv z.utc := ⟨((dateInv_iff z.utc.date).mp hz.1.1).1, hz.1.2⟩
+  have hov : Zoned.overflowing_naive_local (Zoned.to_utc z) = .ok z.utc :=
+    local_back (Zoned.to_utc z) hzu z.utc hext (by show instSecs z.utc = instSecs z.utc - 0; omega) rfl
+  obtain ⟨l', a1, a2, a3, a4, _, _⟩ := naive_local_spec _ hzi
+  obtain ⟨lu, u1, _, _, _, u5, u6⟩ := naive_local_spec _ hzu
+  rw [hov] at u1; injection u1 with u1; subst u1
+  refine ⟨hzi, rfl, rfl, ⟨l', a1, a2, ?_, a4, ?_⟩, fun _ => rfl, by cases z; rfl, rfl, hzu, ?_, hov,
+    by cases z; rfl, by unfold Zoned.eq Zoned.to_utc; simp⟩
+  · rw [a3]; unfold wallSecs Zoned.with_timezone; dsimp only; omega
+  · exact (utc_of_fromUtc o' z.utc ho hz.1).2.2
+  · rw [u5, if_pos (u6.mp hz.1.1)]
+
+/-- non-vacuity: `MAX_UTC` moved from +01:00 (headroom wall clock) to −01:00 (in range) and to UTC -/
+example :
+    ZInv ⟨NaiveDT.MAX, 3600⟩ ∧ OffValid (-3600) ∧
+    Zoned.overflowing_naive_local (Zoned.with_timezone ⟨NaiveDT.MAX, 3600⟩ (-3600)) =
+      .ok ⟨Date.MAX, ⟨82799, 999999999⟩⟩ ∧
+    Zoned.naive_local ⟨NaiveDT.MAX, 3600⟩ = .panic ∧
+    Zoned.naive_local (Zoned.to_utc ⟨NaiveDT.MAX, 3600⟩) = .ok NaiveDT.MAX ∧
+    Zoned.from_local_datetime (-3600) ⟨Date.MAX, ⟨82799, 999999999⟩⟩ = .ok (some ⟨NaiveDT.MAX, -3600⟩) := by
+  decide +kernel
 
 end Chrono.Props.C04
